@@ -26,6 +26,7 @@ RULE = ("case = one word over rows (key incl. null, value null/non-null, mask bi
         "all-reversed schedule; state = (input, configuration, schedule); outcome must equal the "
         "baseline normal form exactly; non-trivial = >= 2 rows and some configuration splits them")
 ASSUMPTIONS = [
+    'Arrow nullable-integer value chunks (every composition, plain / T=2 / chunk-wise keys) against the same integers as one contiguous Arrow array',
     'multi-key groupings (2 and 3 keys) under T = 2, 3 with D <= 1 / 2; chunk-wise uint8 values under masks; the first schedule of every exploration is replayed twice (determinism self-check)',
     "footprint sub-spaces: around every task body all array memory reachable from any task of the pool, finished tasks' results and the library's module-level state is compared element by element (write-write conflicts, writes into another task's result); quick: one configuration per kind of pool on A(2)^3, thorough: all configurations and operations",
     "tasks run to completion one at a time in the chosen order (completion order = execution "
@@ -146,6 +147,13 @@ class StrategySpace(Subspace):
                         if kc != vc:
                             out.append((f"arrow key chunks={kc} value chunks={vc}",
                                         dict(kchunks=kc, vchunks=vc), A6 if thorough else A3, ()))
+        if mode == "arrowint" and n >= 2:
+            A7 = ["sum", "mean", "min", "max", "first", "last", "count", "sum_2col"]
+            for comp in W.compositions(n, 3, 2):
+                out.append((f"arrow int value chunks={comp}", dict(vchunks=comp), A7, ()))
+                out.append((f"arrow int value chunks={comp} T=2", dict(vchunks=comp, T=2), A7, ()))
+                out.append((f"arrow int value chunks={comp} chunkwise", dict(vchunks=comp, threshold=1, fanout=2),
+                            A7, ()))
         if mode == "multikey":
             # several keys: one factorisation task per key (their results must stay in key order),
             # then the usual per-block tasks
@@ -172,6 +180,13 @@ class StrategySpace(Subspace):
         mref = list(d.ms) if d.ms is not None else None
         res.nontrivial = n >= 2
         seams = env.seams()
+        arrow_int = case["mode"] == "arrowint"
+        if arrow_int:
+            # Arrow INTEGER values with Arrow nulls: whole numbers for every seed; a chunk without null
+            # converts to int64, one with a null to float64/NaN - the chunks must be promoted together
+            whole = np.array([np.nan if v != v else float(int(round(float(v) * 16))) for v in d.V.tolist()])
+            d.V = whole
+            d.V2 = np.where(np.isnan(whole), np.nan, np.abs(whole) + 1.0)
         ctx0 = d.ctx(mref)
         bound = case["bound"]
         vkind = d.V.dtype.kind
@@ -181,7 +196,16 @@ class StrategySpace(Subspace):
 
         def chunked(arr, comp):
             cuts = np.cumsum(comp)[:-1]
+            if arrow_int and np.asarray(arr).dtype.kind == "f":
+                return pa.chunked_array(
+                    [pa.array([None if x != x else int(x) for x in p.tolist()], type=pa.int64())
+                     for p in np.split(np.asarray(arr), cuts)], type=pa.int64())
             return pa.chunked_array([pa.array(p) for p in np.split(np.asarray(arr), cuts)])
+
+        if arrow_int:
+            # baseline: the same Arrow integers as ONE contiguous array
+            one = lambda a: pa.array([None if x != x else int(x) for x in np.asarray(a).tolist()], type=pa.int64())  # noqa
+            ctx0 = O.Ctx(V=one(d.V), M=ctx0.M, V2=one(d.V2), T=ctx0.T, VS=ctx0.VS, n=n)
 
         def execute(name, cfg, ctx, keyarg):
             seams.set(executor=sched.NAMESPACE, threshold=cfg.get("threshold"),
@@ -391,6 +415,7 @@ def subspaces(tier, seed):
                     with_mask=False, bound=0, seed=seed))
         # a chunk whose rows of a group are all rejected by the mask: empty partial of a dtype without null
         sp.append(S("chunkwise-u1-A2-n2to3", 2, 2, 3, mode="chunkwise", vdtype="u1", bound=0, seed=seed))
+        sp.append(S("arrowint-values-A0_2-n2to3", 2, 2, 3, mode="arrowint", with_mask=False, bound=0, seed=seed))
         sp.append(S("multikey-float+str-A0_2-n2", 2, 2, 2, mode="multikey", keykind="float+str_obj",
                     with_mask=False, bound=1, seed=seed))
         # narrow integer / bool values under several threads (their 'no value' filler is not a null)
@@ -418,6 +443,7 @@ def subspaces(tier, seed):
                         seed=seed))
         sp.append(S("chunkwise-strkeys-A2-n1to3", 2, 1, 3, mode="chunkwise", keykind="str_obj",
                     bound=1, seed=seed))
+        sp.append(S("arrowint-values-A2-n2to4", 2, 2, 4, mode="arrowint", bound=1, seed=seed))
         sp.append(S("multikey-float+str-A0_2-n2to3", 2, 2, 3, mode="multikey", keykind="float+str_obj",
                     with_mask=False, bound=2, seed=seed))
         sp.append(S("multikey-float+str-A2-n2", 2, 2, 2, mode="multikey", keykind="float+str_obj",
